@@ -121,7 +121,7 @@ def check_receive(ctx):
         ctx.ob("C17.P1", q, ok, "the decoded block is what is delivered" if ok else f"`{norm(c)}` does not deliver the decoded block", key="delivers-decoded", where=f.where)
         dc = next(c for c in dec[0].calls if call_name(c) == "SecsIBlock.decode")
         rvars = {t.id for t in rules.assigned_targets(reads[0][0].ast) if isinstance(t, ast.Name)} if reads and isinstance(reads[0][0].ast, ast.Assign) else set()
-        ok = norm(dc.args[0]) in rvars
+        ok = norm(dc.args[0]) in rvars or any(dc.args[0] is r[1] for r in reads if len(r) > 1)  # read into a local, or decoded as they are read
         ctx.ob("C17.P1", q, ok, "the bytes just read are what is decoded" if ok else "the decoded bytes are not the block just read", key="decodes-read", where=f.where)
 
 
